@@ -215,6 +215,43 @@ func cmdCheck(args []string) int {
 			}
 		}
 	}
+	// lock discipline is only as good as its coverage: every function that touches a guarded field must be under a
+	// locksafe contract of this property
+	if len(prog.guarded) > 0 {
+		tagged := false
+		for _, fd := range cs.Fields {
+			if fd.Kind == "guarded" && containsStr(fd.Tags, prop) {
+				tagged = true
+			}
+		}
+		if tagged {
+			covered := map[string]bool{}
+			for _, fc := range fcs {
+				if fc.Flags["locksafe"] {
+					if fn := prog.FindFunc(fc); fn != nil {
+						covered[fn.String()] = true
+					}
+				}
+			}
+			var missing []string
+			for k, fns := range prog.guardedAccessors() {
+				for _, f := range fns {
+					// a closure is checked as part of the function that creates it (it is executed in place; handing
+					// it to code that is not executed in place is itself an obligation failure)
+					if i := strings.Index(f, "$"); i > 0 && covered[f[:i]] {
+						continue
+					}
+					if !covered[f] {
+						missing = append(missing, f+" (touches "+k+")")
+					}
+				}
+			}
+			sort.Strings(missing)
+			if len(missing) > 0 && *only == "" {
+				return fail("functions access lock-protected fields but are not under a locksafe contract: " + strings.Join(missing, "; "))
+			}
+		}
+	}
 	var results []*FuncResult
 	for _, fc := range fcs {
 		if *only != "" && !strings.Contains(fc.Key(), *only) {
